@@ -13,12 +13,14 @@ RULE = ("implicit: Hypothesis build programs without explicit relations (<= 8 it
         "(kind, channels, qubits, duration, tag, annotation fields) is the same before and after flatten(), "
         "composite_operations is empty afterwards, the flattened listing is causal (every reported reference is listed, "
         "and earlier), the returned circuit lists the same objects as the flattened one, and "
-        "a second flatten() changes neither listing nor schedule. library: repetition-code circuits (d 2..4, 0..6 cycles, "
-        "refocusing on/off), the simplified constructor, multi-round experiments and calibration circuits, modifiers "
+        "a second flatten() changes neither listing nor schedule. deep_programs: fixed long programs of k sub-circuits x m "
+        "sequential gates (6x100, 3x250; thorough also 12x120, 40x50, 2x1200), same clauses. library: repetition-code circuits (d 2..4, 0..6 cycles, "
+        "refocusing on/off; long experiments of 30 and 45 cycles, thorough up to 200 cycles, multi-round up to 60 cycles per block), the simplified constructor, multi-round experiments and calibration circuits, modifiers "
         "applied: listing signature sequence, schedule, duration, acquisition indices (per qubit and per tag) and the "
         "exported Stim text are identical before and after flatten(). Non-trivial = nesting depth >= 2 or >= 2 sibling "
         "sub-circuits; distinct = canonical JSON.")
 ASSUMPTIONS = [
+    "the long cases stay below the library's documented graph depth limit (MAX_GRAPH_DEPTH = 5000 relation layers; deepest case about 3800)",
     "order and schedule preservation is claimed for modifier-applied library circuits only; generated programs assert the multiset, absence of sub-circuits and idempotence",
 ]
 
@@ -34,6 +36,16 @@ def strat_implicit():
 
 def strat_explicit():
     return P.program_strategy(cfg(True))
+
+
+def items_deep(tier):
+    """Long implicitly sequenced programs: k sub-circuits of m gates each on one qubit line - every nested graph is
+    shallow (m layers), the flattened one is k*m layers deep."""
+    kinds = ["Rx180", "Ry90", "Hadamard", "Identity"]
+    shapes = [(6, 100), (3, 250)] if tier == "quick" else [(6, 100), (3, 250), (12, 120), (40, 50), (2, 1200)]
+    for k, m in shapes:
+        subs = [{"sub": {"reps": 1, "items": [{"k": kinds[(i + j) % 4], "q": [j % 2]} for j in range(m)]}} for i in range(k)]
+        yield {"g": None, "dreg": {}, "top": {"reps": 1, "items": [{"k": "CPhase", "q": [0, 1]}] + subs + [{"k": "DispersiveMeasure", "q": [0], "tag": "", "reg": 0}]}}
 
 
 def ms(sigs):
@@ -117,6 +129,11 @@ def items_library(tier):
         yield {"ctor": "simplified", "d": d, "cycles": 3, "refocus": False}
         yield {"ctor": "multi", "d": d, "rounds": [0, 2, 1] if d == 2 else [3, 0]}
         yield {"ctor": "multi", "d": d, "rounds": [4]}
+    # long experiments: the flattened circuit is one graph as deep as the whole program (about 19 relation layers per
+    # QEC cycle), far deeper than any of the nested graphs it is built from
+    for d, c in ([(2, 30), (3, 45)] if tier == "quick" else [(2, 30), (3, 45), (2, 90), (3, 120), (2, 200)]):
+        yield {"ctor": "repcode", "d": d, "cycles": c}
+    yield {"ctor": "multi", "d": 2, "rounds": [12, 20, 8] if tier == "quick" else [40, 25, 60]}
     yield {"ctor": "calibration", "d": 3, "type": "QUBIT"}
     yield {"ctor": "calibration", "d": 3, "type": "QUTRIT"}
 
@@ -163,5 +180,6 @@ def parts():
     return [
         Part("implicit", body, strategy=strat_implicit, quick=900, thorough=4000),
         Part("explicit", body, strategy=strat_explicit, quick=600, thorough=3000),
+        Part("deep_programs", body, items=items_deep),
         Part("library", body_library, items=items_library),
     ]
